@@ -219,6 +219,12 @@ def oracle(case):
             bad = "Content-Type %r, required %r" % (hd.get("content-type"), exp["ct"])
         elif "hdrs" in exp and [h for h in calls[0][1]][:len(exp["hdrs"])] != exp["hdrs"]:
             bad = "headers given in the tuple are not passed on unchanged"
+        elif "hdrs" in exp:
+            # the tuple form sets exactly those headers: the framework adds Content-Type/Content-Length only
+            given = [k.lower() for k, _ in exp["hdrs"]]
+            for k, _ in calls[0][1][len(exp["hdrs"]):]:
+                if k.lower() not in ("content-type", "content-length") or k.lower() in given:
+                    bad = "header %s was added to the headers given in the tuple %r" % (k, exp["hdrs"])
         elif status in (204, 304) and body:
             bad = "body with status %d" % status
     if bad:
